@@ -75,4 +75,31 @@ theorem kernelRunT_lanewise (alpha : V K) (A : RMat (V K) r c) (x : Vector (V K)
     rw [kernelT_lanewise X l _ _ _ _ (hom_kUpd X hX R l s) (hom_kTerm X hX R l cj s alpha)]
 
 end Kern
+section MatSpace
+variable {V : Type → Type} {L : Nat} (X : SimdLike V L) (hX : X.Lawful) {K : Type} (R : Arith K) {r c : Nat} (l : Fin L)
+
+theorem rmap2_lanewise (f : V K → V K → V K) (fs : K → K → K) (h : ∀ a b, X.lane l (f a b) = fs (X.lane l a) (X.lane l b))
+    (A B : RMat (V K) r c) : laneRMat X l (RMat.map2 f A B) = RMat.map2 fs (laneRMat X l A) (laneRMat X l B) := by
+  apply Vector.ext; intro i hi; apply Vector.ext; intro j hj
+  simp [laneRMat, RMat.map2, h]
+
+theorem rmap1_lanewise (f : V K → V K) (fs : K → K) (h : ∀ a, X.lane l (f a) = fs (X.lane l a))
+    (A : RMat (V K) r c) : laneRMat X l (RMat.map1 f A) = RMat.map1 fs (laneRMat X l A) := by
+  apply Vector.ext; intro i hi; apply Vector.ext; intro j hj
+  simp [laneRMat, RMat.map1, h]
+
+include hX in
+theorem matSpace_lanewise (k : V K) (A B : RMat (V K) r c) :
+    laneRMat X l (matAdd X R A B) = matAdd (V := fun α => α) Xs R (laneRMat X l A) (laneRMat X l B) ∧
+    laneRMat X l (matSub X R A B) = matSub (V := fun α => α) Xs R (laneRMat X l A) (laneRMat X l B) ∧
+    laneRMat X l (matScale X R k A) = matScale (V := fun α => α) Xs R (X.lane l k) (laneRMat X l A) ∧
+    laneRMat X l (matDiv X R k A) = matDiv (V := fun α => α) Xs R (X.lane l k) (laneRMat X l A) ∧
+    laneRMat X l (matNeg X R A) = matNeg (V := fun α => α) Xs R (laneRMat X l A) ∧
+    laneRMat X l (matAxpy X R k A B) = matAxpy (V := fun α => α) Xs R (X.lane l k) (laneRMat X l A) (laneRMat X l B) := by
+  refine ⟨rmap2_lanewise X l _ _ (lane_vadd X hX R l) A B, rmap2_lanewise X l _ _ (lane_vsub X hX R l) A B,
+    rmap1_lanewise X l _ _ (fun a => lane_vmul X hX R l a k) A, rmap1_lanewise X l _ _ (fun a => lane_vdiv X hX R l a k) A,
+    rmap1_lanewise X l _ _ (lane_vneg X hX R l) A, rmap2_lanewise X l _ _ (fun y x => ?_) A B⟩
+  rw [lane_vadd X hX R, lane_vmul X hX R]
+
+end MatSpace
 end DV.C09
